@@ -153,6 +153,21 @@ fn check_all(leaves: &[Vec<u8>], prefixes: bool, obs: &mut Obs) -> Check {
         }
     }
     ensure_eq!(calc.clone().root(), want, "calc-push:root", "MerkleRootCalculator push×{n} root");
+    // a cleared calculator / reset tree is a fresh one: re-use after n leaves for a shorter sequence
+    if n >= 1 {
+        let m = (n * 2 / 3).max(1).min(n);
+        let wm = rf::mth_hashed(&hashes[..m]);
+        let mut c2 = calc.clone();
+        c2.clear();
+        let mut i2 = inmem.clone();
+        i2.reset();
+        for l in &leaves[..m] {
+            c2.push(l);
+            i2.push(l);
+        }
+        ensure_eq!(c2.root(), wm, "calc-clear:reuse-root", "calculator: {n} pushes, clear(), {m} pushes");
+        ensure_eq!(i2.root(), wm, "inmem-reset:reuse-root", "in-memory tree: {n} pushes, reset(), {m} pushes");
+    }
     // the peaks alone determine the root
     ensure_eq!(
         MerkleRootCalculator::new_with_stack(calc.stack().clone()).root(),
@@ -409,6 +424,28 @@ fn run_receipts(c: &ReceiptsCase, obs: &mut Obs) -> Check {
         ctx.push(r.clone()).map_err(|e| Failure::new("receipts-ctx:push-refused", format!("{e:?}")))?;
     }
     ensure_eq!(*ctx.root(), want, "receipts-ctx:after-lock-push", "root after truncating to {k} and re-pushing up to {n}");
+    // in-place replacement of one receipt through the lock (what a VM state rollback does): the
+    // root must be the tree hash of the edited list; an append through the lock likewise
+    if n >= 2 {
+        let i = pick(c.cut, n);
+        let j = (i + 1) % n;
+        let mut edited = receipts.clone();
+        edited[i] = receipts[j].clone();
+        {
+            let mut l = ctx.lock();
+            l.receipts_mut()[i] = receipts[j].clone();
+        }
+        let eh: Vec<[u8; 32]> = edited.iter().map(|r| rf::leaf_hash(&r.to_bytes())).collect();
+        ensure_eq!(*ctx.root(), rf::mth_hashed(&eh), "receipts-ctx:after-lock-edit", "root after replacing receipt {i} of {n} in place through lock()");
+        {
+            let mut l = ctx.lock();
+            l.receipts_mut().push(receipts[0].clone());
+        }
+        let mut eh2 = eh.clone();
+        eh2.push(hashes[0]);
+        ensure_eq!(*ctx.root(), rf::mth_hashed(&eh2), "receipts-ctx:after-lock-append", "root after appending through lock()");
+        obs.class("lock-edit-in-place");
+    }
     ctx.clear();
     ensure_eq!(*ctx.root(), rf::empty(), "receipts-ctx:after-clear", "root after clear()");
     if let Some(r) = receipts.first() {
